@@ -60,6 +60,10 @@ func (e *Engine) litFactSub(s, lo, hi, r string) {
 // unaryStrFacts emits, for every literal known so far, the concrete value of a
 // unary string function (evaluated by running the real library function here).
 func (e *Engine) unaryStrFacts(op string, f func(string) string) {
+	if !e.hookKeys["u|"+op] {
+		e.hookKeys["u|"+op] = true
+		e.litHooks = append(e.litHooks, func() { e.unaryStrFacts(op, f) })
+	}
 	for i := 0; i < len(e.litOrder); i++ {
 		lit := e.litOrder[i]
 		key := op + "|" + lit
@@ -75,6 +79,10 @@ func (e *Engine) predStrFacts(op string, other string, f func(a, b string) bool)
 	lb, ok := e.litOf(other)
 	if !ok {
 		return
+	}
+	if !e.hookKeys["p|"+op+"|"+lb] {
+		e.hookKeys["p|"+op+"|"+lb] = true
+		e.litHooks = append(e.litHooks, func() { e.predStrFacts(op, other, f) })
 	}
 	for i := 0; i < len(e.litOrder); i++ {
 		lit := e.litOrder[i]
